@@ -167,6 +167,9 @@ func (ip *Inode) FreeInode(atxn *alloctxn.AllocTxn) {
 func (ip *Inode) Resize(atxn *alloctxn.AllocTxn, sz uint64) bool {
 	var newSz = sz
 	var doshrink = false
+	if sz < ip.Size && sz%disk.BlockSize != 0 {
+		ip.zeroTail(atxn, sz)
+	}
 	oldsz := util.RoundUp(ip.Size, disk.BlockSize)
 	util.DPrintf(5, "Resize %v to sz %d\n", oldsz, newSz)
 	ip.Size = newSz
@@ -186,6 +189,20 @@ func (ip *Inode) Resize(atxn *alloctxn.AllocTxn, sz uint64) bool {
 		}
 	}
 	return doshrink
+}
+
+// Zero the bytes at and beyond sz in the block that contains sz, so that
+// they read as zero if the file grows again.
+func (ip *Inode) zeroTail(atxn *alloctxn.AllocTxn, sz uint64) {
+	blkno, _ := ip.bmap(atxn, sz/disk.BlockSize)
+	if blkno == common.NULLBNUM {
+		return
+	}
+	buf := atxn.ReadBlock(blkno)
+	for b := sz % disk.BlockSize; b < disk.BlockSize; b++ {
+		buf.Data[b] = 0
+	}
+	buf.SetDirty()
 }
 
 // Returns blkno and root index block for off. If blkno is 0, failure.
